@@ -111,6 +111,9 @@ def build_jobs(t, sd):
             if t == "quick" and v == 10 and ci % 3:
                 continue
             jobs.append({"id": "%s@v%d" % (c["name"], v), "family": "inner:" + c["name"].split("_")[0].rstrip("0123456789"), "call": c, "version": v})
+            if t != "quick" or v == 8 or c["name"].startswith("tx_"):
+                # the same call with assembled constants (the transaction-type and on-completion enums then travel as numbers)
+                jobs.append(dict(jobs[-1], id=jobs[-1]["id"] + "/asm", assemble=True))
     for j in jobs[:: max(1, len(jobs) // 5)]:
         j["want_sample"] = True
         j["keep_teal"] = True
